@@ -34,8 +34,6 @@ Definition mk_fl (m e : Z) : option fl :=
               if (Zpos q <? two53) && (-1000 <? e') && (e' <? 900) then Some (FFin (Zneg q) e') else None
   end.
 
-Definition fl_of_int (z : Z) : option fl := mk_fl z 0.
-
 Definition fl_neg (x : fl) : fl :=
   match x with
   | FNaN => FNaN
@@ -291,6 +289,10 @@ Definition round53 (M E : Z) : Z * Z :=
 
 Definition mk_fl_r (M E : Z) : option fl := let '(m, e) := round53 M E in mk_fl m e.
 
+(* float64(z) of an integer: the nearest float64, ties to even (exact up to 2^53; Go's conversion and
+   JavaScript's number of a larger integer round the same way), so every int64 has a float *)
+Definition fl_of_int (z : Z) : option fl := mk_fl_r z 0.
+
 Definition fl_add_r (x y : fl) : option fl :=
   match x, y with
   | FFin m1 e1, FFin m2 e2 =>
@@ -344,4 +346,12 @@ Definition fl_to_string_dom (x : fl) : option bstr :=
         if ip <? 1000000 then
           Some (sign ++ dec_of_Z ip ++ [46]%N ++ frac_digits 12 (a mod den) den)
         else None
+  end.
+
+(* a finite float in the normal form every operation above returns (mk_fl): a signed zero, or an odd mantissa *)
+Definition fl_finite_norm (x : fl) : Prop :=
+  match x with
+  | FZero _ => True
+  | FFin m _ => Z.odd m = true
+  | _ => False
   end.
